@@ -70,13 +70,25 @@ def _duration_new(ctx) -> None:
         ctx.ob("UNITS.new", "Duration.__new__/days", can.s(args[1]) == E("days + years * 365 + months * 30"),
                f"days argument is `{nun(args[1])}`; a year counts 365 days and a month 30", m.loc(td[0]))
     a = self_assigns(fn)
+    # the sign variable: a local set to 1 and to -1 under `total < 0` (whatever it is called)
+    for n_ in core.walk_fn(fn):
+        if isinstance(n_, ast.If) and nun(n_.test) in ("total < 0", "0 > total") and len(n_.body) == 1 and isinstance(n_.body[0], ast.Assign) \
+                and core.is_const(n_.body[0].value, -1) and isinstance(n_.body[0].targets[0], ast.Name):
+            sv = n_.body[0].targets[0].id
+            if sv != "m":
+                can = Canon({sv: "m"}, consts=_consts(m))
+                a = {("local:m" if k == f"local:{sv}" else "local_last:m" if k == f"local_last:{sv}" else k): v for k, v in a.items()}
+                fix_us = sv
+            break
+    else:
+        sv = "m"
     tot = a.get("local:total")
     ctx.ob("UNITS.new", "Duration.__new__/total", tot is not None and can.s(tot) == E("self.total_seconds() - (years * 365 + months * 30) * 86400"),
            f"total = `{nun(tot)}`; the years/months part added above must be removed again, in seconds", m.loc(fn))
     ctx.ob("UNITS.new", "Duration.__new__/_total", "_total" in a and nun(a["_total"]) == "total", "self._total = total", m.loc(fn))
     # sign
     ifs = [n for n in core.walk_fn(fn) if isinstance(n, ast.If) and nun(n.test) in ("total < 0", "0 > total")]
-    ok = len(ifs) == 1 and [nun(s) for s in ifs[0].body] == ["m = -1"] and nun(a.get("local:m")) == "1" and not ifs[0].orelse
+    ok = len(ifs) == 1 and [nun(s) for s in ifs[0].body] == [f"{sv} = -1"] and nun(a.get("local:m")) == "1" and not ifs[0].orelse
     ctx.ob("DIVMOD.sign", "Duration.__new__/m", ok, "m must be 1, and -1 exactly when total < 0", m.loc(fn))
     want = {
         "_seconds": "abs(int(total)) % 86400 * m",
@@ -94,7 +106,7 @@ def _duration_new(ctx) -> None:
     ctx.ob("DIVMOD.pair", "Duration.__new__/_days-local", d is not None and can.s(d) == E("abs(int(total)) // 86400 * m"),
            f"_days = `{nun(d)}`; must be the quotient of the same abs(int(total)) by 86400 with the same sign m", m.loc(fn))
     us = a.get("_microseconds")
-    ctx.ob("DIVMOD.pair", "Duration.__new__/_microseconds", us is not None and nun(us) in ("round(total % m * 1000000.0)", "round(total % m * 1000000)"),
+    ctx.ob("DIVMOD.pair", "Duration.__new__/_microseconds", us is not None and nun(us) in (f"round(total % {sv} * 1000000.0)", f"round(total % {sv} * 1000000)"),
            f"self._microseconds = `{nun(us)}`; must be the sub-second remainder (total % m) in microseconds", m.loc(fn))
     # guards
     g = [n for n in core.body_no_doc(fn) if isinstance(n, ast.If) and isinstance(n.body[0], ast.Raise)]
